@@ -129,7 +129,9 @@ def _stage(scratch, spec_dirs, extra_files=None):
             if f.endswith(".tla") or f.endswith(".cfg"):
                 shutil.copyfile(os.path.join(d, f), os.path.join(scratch, f))
     for src, name in (extra_files or []):
-        shutil.copyfile(src, os.path.join(scratch, name))
+        dst = os.path.join(scratch, name)
+        if os.path.abspath(src) != os.path.abspath(dst):
+            shutil.copyfile(src, dst)
 
 
 def run_tlc(scratch, spec_dirs, module, cfg, workers=None, timeout=600, simulate=None, depth=None,
